@@ -721,6 +721,7 @@ impl Check for C18 {
                             g.log_uniform(9, 20_000)
                         }
                     }
+                    3 if run % 2 == 0 => ((run / 2) % 301) as usize, // dense sweep of source lengths 0..=300
                     _ => g.urange(0, 8),
                 },
                 dup: g.coin(),
@@ -752,6 +753,8 @@ impl Check for C18 {
                     }
                     _ => g.urange(0, if nested { 8 } else { 64 }),
             };
+            // every fourth generator scenario sweeps the sizes 0..=1100 densely (by run index)
+            let size = if run % 4 == 1 { let s = ((run / 4) % 1101) as usize; if nested { s.min(300) } else { s } } else { size };
             Sc::Gen {
                 kind,
                 size,
